@@ -1,6 +1,7 @@
-// Demonstration for the known findings C02:R-C02.10 (a crash during the very first open leaves a directory
-// that can never be opened).  Copy to <worktree>/tests/ and run: cargo test --offline --test c02_first_open_crash_demo
-// Both tests FAIL on the unchanged tree.
+// Demonstration for repair 34 (C02, R-C02.10): a crash during the very first open used to leave a directory that could
+// never be opened.  Copy to <worktree>/tests/ and run: cargo test --offline --test c02_first_open_crash_demo
+// Before the repair both tests failed (the second one with the marker created under its FINAL name and still empty,
+// which the new creation protocol — write `version.tmp`, rename — cannot produce any more).
 use fjall::Database;
 
 /// the process died in Database::create_new after 0.jnl was created, before the version marker
@@ -15,7 +16,7 @@ fn died_before_the_version_marker() {
     assert!(res.is_ok(), "reopen after a crash during the first open failed: {:?}", res.err());
 }
 
-/// the process died between File::create_new("version") and the header write
+/// the process died while writing the version marker (now: a half-written `version.tmp`)
 #[test]
 fn died_while_writing_the_version_marker() {
     let folder = tempfile::tempdir().unwrap();
@@ -23,7 +24,7 @@ fn died_while_writing_the_version_marker() {
     std::fs::create_dir_all(dir.join("keyspaces")).unwrap();
     std::fs::write(dir.join("lock"), b"").unwrap();
     std::fs::write(dir.join("0.jnl"), vec![0u8; 1024]).unwrap();
-    std::fs::write(dir.join("version"), b"").unwrap();
+    std::fs::write(dir.join("version.tmp"), b"F").unwrap();
     let res = Database::builder(&dir).open();
     assert!(res.is_ok(), "reopen after a crash during the first open failed: {:?}", res.err());
 }
